@@ -288,7 +288,7 @@ def cfg_fn(rng):
     return cfg
 
 
-WEIGHTS = {"scenario": 1.2, "add_edge": 6, "add_node": 4, "swap": 2.5, "paint": 2, "update_attrs": 0.3}
+WEIGHTS = {"ctrl": 0.8, "scenario": 1.2, "add_edge": 6, "add_node": 4, "swap": 2.5, "paint": 2, "update_attrs": 0.3}
 
 
 def plan(tier, seed):
